@@ -314,6 +314,26 @@ def point_edits():
     return e
 
 
+def pair_edits():
+    """Pairs of isotherms with minimally different content: (name, maker A, maker B) - their identifiers must differ."""
+    pairs = []
+    for cls, mk in (('base', mk_base), ('point', mk_point), ('model', mk_model)):
+        pairs.append((f'[{cls}] metadata under a key starting with an underscore (as the AIF parser produces): value changed',
+                      lambda mk=mk: mk(_exptl_method='volumetric'), lambda mk=mk: mk(_exptl_method='gravimetric')))
+        pairs.append((f'[{cls}] metadata under a key starting with an underscore: present / absent', lambda mk=mk: mk(_audit_note='x'), lambda mk=mk: mk()))
+        pairs.append((f'[{cls}] metadata key data_hash: value changed', lambda mk=mk: mk(data_hash='x'), lambda mk=mk: mk(data_hash='y')))
+    pairs.append(('[point] pressure and loading columns exchanged as a whole', lambda: mk_point(), lambda: mk_point(df=point_df(p=L, l=P))))
+    p2, l2 = list(P), list(L)
+    p2[1], l2[1] = L[1], P[1]
+    pairs.append(('[point] pressure and loading of ONE point exchanged', lambda: mk_point(), lambda: mk_point(df=point_df(p=p2, l=l2))))
+    two = lambda a, b: mk_point(df=point_df().drop(columns=['txt']).assign(enth=a, heat=b))     # noqa: E731
+    pairs.append(('[point] contents of two supplementary columns exchanged', lambda: two(EX1, [9.0, 8.0, 7.0, 6.0, 5.0, 4.5]), lambda: two([9.0, 8.0, 7.0, 6.0, 5.0, 4.5], EX1)))
+    e3 = list(EX1)
+    e3[0], e3[1] = EX1[1], EX1[0]
+    pairs.append(('[point] two cells of one supplementary column exchanged between rows', lambda: mk_point(), lambda: mk_point(df=point_df(e1=e3))))
+    return pairs
+
+
 def _without(key):
     import pygaps
     k = kw()
@@ -415,6 +435,16 @@ def run(ctx):
         if o.ok and core.call(lambda: mk() == ref_p).value:
             ctx.violate(core.make_violation({'check': 'edit-still-equal', 'template': 'point', 'edit': name.split('[')[0].split(' ')[0]},
                                             f'[point] after edit {name!r} the isotherm still compares equal', {'edit': name}))
+    for name, mk_a, mk_b in pair_edits():
+        oa, ob = core.call(lambda: mk_a().iso_id), core.call(lambda: mk_b().iso_id)
+        ev += 1
+        nt += 1
+        if oa.ok and ob.ok and oa.value == ob.value:
+            ctx.violate(core.make_violation({'check': 'edit-does-not-change-id', 'template': 'pair', 'edit': name.split('] ')[1].split(':')[0]},
+                                            f'{name}: both isotherms have the identifier {oa.value}', {'edit': name}, 'different identifiers', oa.value))
+        elif oa.ok and ob.ok and core.call(lambda: mk_a() == mk_b()).value:
+            ctx.violate(core.make_violation({'check': 'edit-still-equal', 'template': 'pair', 'edit': name.split('] ')[1].split(':')[0]},
+                                            f'{name}: the two isotherms compare equal', {'edit': name}))
     ref_m = mk_model()
     for name, mk in model_edits().items():
         o = core.call(lambda: mk().iso_id)
